@@ -530,6 +530,18 @@ func parseTrailer(t *protocol.Trailer, buf []byte) (int, error) {
 		}
 	}
 
+	// The trailer section is scanned from its start again whenever more bytes have arrived. Make sure it is
+	// complete before any announced trailer is filled: a field taken from a partial section (a value whose
+	// continuation line had not arrived, or the first of two fields of one name) would not be filled again.
+	var pre HeaderScanner
+	pre.B = buf
+	pre.DisableNormalizing = t.IsDisableNormalizing()
+	for pre.Next() {
+	}
+	if pre.Err != nil {
+		return 0, pre.Err
+	}
+
 	var s HeaderScanner
 	s.B = buf
 	s.DisableNormalizing = t.IsDisableNormalizing()
